@@ -7,9 +7,25 @@ EPS = 1e-6
 REL = 1e-9
 
 
+class _Configured:
+    """The model's struct, with every setting the USER configured taken from the spec instead (a reader that rewrites a setting
+    must not hide a mismatch from the monitors)."""
+
+    def __init__(self, struct, cfg):
+        object.__setattr__(self, "_s", struct)
+        object.__setattr__(self, "_c", cfg or {})
+
+    def __getattr__(self, k):
+        c = object.__getattribute__(self, "_c")
+        if k in c:
+            # the documented unit contract: bund height is given in m and used in mm
+            return c[k] * 1000.0 if k == "z_bund" else c[k]
+        return getattr(object.__getattribute__(self, "_s"), k)
+
+
 def field_in_force(ctx, gs):
     ps = ctx.model._param_struct
-    return ps.FieldMngt if gs else ps.FallowFieldMngt
+    return _Configured(ps.FieldMngt, ctx.spec.get("field")) if gs else _Configured(ps.FallowFieldMngt, ctx.spec.get("fallow"))
 
 
 def bunds_on(fm):
